@@ -492,3 +492,81 @@ func typeNamesOf(cols []inputCol) []string {
 	}
 	return out
 }
+
+// TestC04ExceptionWhilePeerNotReading: during a streaming INSERT the server reports an exception and
+// stops reading (its side of the query is over), so the sender's write in flight blocks like on a full
+// send buffer - with a caller's context that has no deadline nothing bounds that write. The call
+// returns the exception all the same, and the client is closed or usable at a packet boundary.
+func TestC04ExceptionWhilePeerNotReading(t *testing.T) {
+	st := stats.G()
+	rapid.Check(t, func(rt *rapid.T) {
+		rapid.SyncTest(rt, func(rt *rapid.T) {
+			comp := compModes[rapid.SampledFrom([]int{0, 2}).Draw(rt, "compression")]
+			readTO := rapid.SampledFrom([]time.Duration{200 * time.Millisecond, time.Second, ch.NoTimeout}).Draw(rt, "read-timeout")
+			excAfter := time.Duration(rapid.IntRange(0, 300).Draw(rt, "exception-after-ms")) * time.Millisecond
+			farDeadline := rapid.Bool().Draw(rt, "ctx-with-far-deadline")
+			e := newEnv(54460)
+			defer e.conn.ForceClose()
+			cols := drawInput(rt, "col", 2, 1)
+			hdr := itemStep(headerItem(cols), simnet.AfterQuery(1), comp.Method, nil)
+			hdr.Then = func(cn *simnet.Conn) { cn.StallWrites() }
+			exc := itemStep(Item{Kind: "exception", Exc: []ref.Exception{{Code: 241, Name: "DB::Exception", Message: "Memory limit (for query) exceeded"}}}, nil, 0, nil)
+			exc.Delay = excAfter
+			e.srv.Steps = append(e.srv.Steps, hdr, exc)
+			opt := baseOptions(54460, comp)
+			opt.ReadTimeout = readTO
+			client, err := e.connect(context.Background(), opt)
+			if err != nil {
+				rt.Fatalf("connect: %v", err)
+			}
+			ctx := context.Background()
+			if farDeadline {
+				var c2 context.CancelFunc
+				ctx, c2 = context.WithTimeout(ctx, time.Hour)
+				defer c2()
+			}
+			q := ch.Query{Body: "INSERT INTO t VALUES", Input: protoInput(cols),
+				OnInput: func(ctx context.Context) error {
+					for _, c := range cols {
+						c.col.Column().Reset()
+						c.col.AppendBulk(c.rows)
+					}
+					return nil
+				}}
+			start := time.Now()
+			var derr error
+			done := make(chan struct{})
+			go func() { defer close(done); derr = client.Do(ctx, q) }()
+			lim := excAfter + 3*time.Second
+			if readTO > 0 {
+				lim += readTO
+			}
+			hung := false
+			select {
+			case <-done:
+			case <-time.After(lim):
+				hung = true
+				e.conn.ForceClose()
+				<-done
+			}
+			st.Case(stats.Hash("c04excstall", excAfter, readTO, farDeadline, comp.Name, fmt.Sprint(typeNamesOf(cols))), true, func() any {
+				return map[string]any{"kind": "exception-while-peer-not-reading", "exception_after": excAfter.String(), "read_timeout": readTO.String(), "far_deadline": farDeadline, "hung": hung, "returned_after": time.Since(start).String(), "error": fmt.Sprint(derr)}
+			})
+			if hung {
+				rt.Fatalf("the server answered a streaming INSERT with an exception after %v and stopped reading: Do had not returned %v later (read timeout %v, context deadline: %v); after the connection was closed for it, it returned %v", excAfter, lim-excAfter, readTO, farDeadline, derr)
+			}
+			if !ch.IsErr(derr, 241) {
+				rt.Fatalf("exception 241 while the peer does not read: Do returned %v", derr)
+			}
+			synctest.Wait()
+			if !client.IsClosed() {
+				var perr error
+				var pending int
+				e.srv.WithStream(func(cs *ref.ClientStream) { perr, pending = cs.Err, cs.Pending() })
+				if perr != nil || pending != 0 {
+					rt.Fatalf("client left open after the exception, but what it wrote is not a whole number of packets (%v, %d bytes pending)", perr, pending)
+				}
+			}
+		})
+	})
+}
